@@ -7,6 +7,7 @@
 import NutsModel.C10.DidStore
 import NutsModel.Facts.C10
 import NutsProofs.Lemmas.C10
+import NutsProofs.Lemmas.C10Obs
 
 namespace Nuts.C10.Props
 open Nuts.C10
@@ -192,6 +193,166 @@ theorem conflict_resolved_by_covering_update (cfg : Cfg) (evs : List Event) (c :
   simp only [hempty, List.isEmpty_nil, if_true]
   exact ⟨_, rfl, by simp [Meta.isConflicted], rfl, rfl, rfl⟩
 
+/-! ### the other observation sites: Conflicted(), Iterate(), Finder, HistorySinceVersion, restart -/
+
+/-- everything `addAll` reaches from the empty store satisfies the observation invariant
+    (event IDs, cache = flags, counters) -/
+theorem reachable_obsInv (cfg : Cfg) (hk : MergeKeepsId cfg) (l : List Event) (s : Store)
+    (h : addAll cfg {} l = .ok s) : ObsInv cfg s :=
+  addAll_obsInv cfg hk l {} s (obsInv_empty cfg) h
+
+/-- **Order independence of every other read path.** For two arrival sequences over the same event set (as in
+    `resolve_order_independent`): the entry `Conflicted()` hands out for each DID, the whole `Iterate()` sequence,
+    the `Finder` result and `HistorySinceVersion` for every version are identical. -/
+theorem observations_order_independent (σ₁ σ₂ : Field → List Entry → List Entry)
+    (h₁ : ∀ f l, (σ₁ f l).Perm l) (h₂ : ∀ f l, (σ₂ f l).Perm l)
+    (l₁ l₂ : List Event) (hU : RefFun l₁) (hsame : ∀ e, e ∈ l₁ ↔ e ∈ l₂) (s₁ s₂ : Store)
+    (r₁ : addAll (cfgOf σ₁ Facts.C10.mergeSortedFields) {} l₁ = .ok s₁)
+    (r₂ : addAll (cfgOf σ₂ Facts.C10.mergeSortedFields) {} l₂ = .ok s₂) :
+    (∀ id, conflictedOf s₁ id = conflictedOf s₂ id) ∧ iterate s₁ = iterate s₂ ∧ findActive s₁ = findActive s₂ ∧
+    (∀ id v, historySince (s₁.get id) v = historySince (s₂.get id) v) := by
+  have hget := fun k => (resolve_order_independent σ₁ σ₂ h₁ h₂ l₁ l₂ hU hsame s₁ s₂ r₁ r₂ k).1
+  have i₁ := reachable_obsInv _ (cfgOf_keeps_id σ₁ _) l₁ s₁ r₁
+  have i₂ := reachable_obsInv _ (cfgOf_keeps_id σ₂ _) l₂ s₂ r₂
+  have hit := iterate_determined _ _ s₁ s₂ i₁.store i₂.store hget
+  refine ⟨?_, hit, ?_, ?_⟩
+  · intro id
+    unfold conflictedOf
+    rw [i₁.cache.look id, i₂.cache.look id, hget id]
+  · unfold findActive; rw [hit]
+  · intro id v; rw [hget id]
+
+/-- **Restart.** Re-opening the store (`loadConflictedDocuments` on a new store object) rebuilds exactly the cache
+    the running store had: same entry for every DID, same entries overall, nothing else changes. -/
+theorem restart_changes_nothing (cfg : Cfg) (hk : MergeKeepsId cfg) (l : List Event) (s : Store)
+    (h : addAll cfg {} l = .ok s) :
+    (reload s).dids = s.dids ∧ (reload s).conflictedCount = s.conflictedCount ∧
+    (reload s).documentCount = s.documentCount ∧
+    (∀ id, conflictedOf (reload s) id = conflictedOf s id) ∧ (∀ p, p ∈ (reload s).cache ↔ p ∈ s.cache) := by
+  have hs := reachable_obsInv cfg hk l s h
+  refine ⟨rfl, rfl, rfl, ?_, ?_⟩
+  · intro id; unfold conflictedOf; rw [reload_look cfg hk s hs id]
+  · exact mem_of_alGet_iff _ _ (reload_nodup s) hs.cache.nodup (reload_look cfg hk s hs)
+
+/-- **Iterators and counters tell one story.** After any arrival sequence `Conflicted()` calls back exactly
+    `ConflictedCount()` times and `Iterate()` exactly `DocumentCount()` times; a DID has a `Conflicted()` entry iff
+    its durable flag is set, and that entry is its latest version (what `Resolve` with `AllowDeactivated` answers),
+    which has more than one source transaction. -/
+theorem iterators_agree_with_counters (cfg : Cfg) (hk : MergeKeepsId cfg) (l : List Event) (s : Store)
+    (h : addAll cfg {} l = .ok s) :
+    s.cache.length = s.conflictedCount ∧ (iterate s).length = s.documentCount ∧
+    ∀ id, ((conflictedOf s id).isSome = (s.get id).conflicted) ∧
+      ∀ d vm, conflictedOf s id = some (d, vm) →
+        ∃ m, resolve s id (some { allowDeactivated := true }) = .ok (d, m) ∧ m.asVDR = vm ∧ vm.sourceTx.length > 1 := by
+  have hs := reachable_obsInv cfg hk l s h
+  refine ⟨cache_length cfg s hs, iterate_length cfg s hs.store, fun id => ?_⟩
+  have hlook := hs.cache.look id
+  have hinv := get_inv cfg s hs.store id
+  unfold conflictedOf
+  by_cases hc : (s.get id).conflicted = true
+  · simp only [hc, if_true] at hlook
+    have hne : (s.get id).events ≠ [] := by
+      intro hnil
+      have hch := hinv.chain
+      rw [hnil] at hch
+      simp only [derive, applyAll, Res.ok.injEq] at hch
+      have hf := hinv.flag
+      rw [← hch] at hf
+      simp [hc] at hf
+    obtain ⟨p, hp⟩ := inv_last cfg (s.get id) hinv hne
+    rw [hlook, hp, hc]
+    refine ⟨rfl, ?_⟩
+    intro d vm hdv
+    simp only [Option.map_some, Option.some.injEq, Prod.mk.injEq] at hdv
+    refine ⟨p.2, ?_, hdv.2, ?_⟩
+    · rw [← hdv.1]; exact resolve_latest s id p hp
+    · have hf := hinv.flag
+      rw [hp, hc] at hf
+      rw [← hdv.2]
+      simpa [Meta.isConflicted, Meta.asVDR] using hf.symm
+  · have hc' : (s.get id).conflicted = false := by simpa using hc
+    simp only [hc', Bool.false_eq_true, if_false] at hlook
+    rw [hlook, hc']
+    refine ⟨rfl, ?_⟩
+    intro d vm hdv
+    simp at hdv
+
+/-- **Resolve answers satisfy their filters** — for every metadata combination (hash, time, source transaction,
+    allow-deactivated, any subset): the answer is a stored version, it passes every filter that was given, and it is
+    the latest version that does. -/
+theorem resolve_answers_satisfy_filters (s : Store) (id : String) (r : ResolveMeta) (d : Doc) (m : Meta)
+    (h : resolve s id (some r) = .ok (d, m)) :
+    (∃ newer older, (s.get id).chain.reverse = newer ++ (d, m) :: older ∧
+      ∀ q ∈ newer, matchesMeta q.2 (some r) = false) ∧
+    (m.deactivated = true → r.allowDeactivated = true) ∧
+    (∀ x, r.hash = some x → m.hash = x) ∧
+    (∀ t, r.time = some t → m.updated ≤ t ∧ m.created ≤ t) ∧
+    (∀ tx, r.sourceTx = some tx → tx ∈ m.sourceTx) := by
+  unfold resolve at h
+  obtain ⟨newer, older, hc, hm, hall⟩ := resolveChain_sound (some r) _ (d, m) h
+  exact ⟨⟨newer, older, hc, hall⟩, matchesMeta_some m r hm⟩
+
+/-- **Deactivation is permanent, end to end.** If the arrived set holds a deactivation of a DID then — for every
+    arrival order — `Resolve(id, nil)` and `Resolve(id, {})` answer `deactivated`, and no query without
+    `AllowDeactivated` is ever answered with a deactivated version. -/
+theorem deactivation_is_permanent (cfg : Cfg) (l : List Event) (hU : RefFun l) (s : Store)
+    (h : addAll cfg {} l = .ok s) (e : Event) (he : e ∈ l) (hd : isDeactivated e.doc = true) :
+    resolve s e.doc.id none = .err "deactivated" ∧ resolve s e.doc.id (some {}) = .err "deactivated" ∧
+    ∀ r d m, resolve s e.doc.id (some r) = .ok (d, m) → r.allowDeactivated = false → m.deactivated = false := by
+  obtain ⟨hinv, hmem⟩ := store_is_fold cfg l hU s h e.doc.id
+  have hin : e ∈ (s.get e.doc.id).events := (hmem e).mpr ⟨he, rfl⟩
+  obtain ⟨h1, h2⟩ := inv_deactivated_resolve cfg (s.get e.doc.id) hinv e hin hd
+  refine ⟨h1, h2, ?_⟩
+  intro r d m hr hna
+  have := (resolve_answers_satisfy_filters s e.doc.id r d m hr).2.1
+  cases hmd : m.deactivated with
+  | false => rfl
+  | true => rw [this hmd] at hna; cases hna
+
+/-- **A covering update resolves the conflict, end to end.** If one event of a DID is after all its other events
+    and names all of them as previous transactions then — for every arrival order, duplicates included — the DID is
+    not conflicted, has no `Conflicted()` entry, and its latest version is exactly that event's document, hash and
+    source transaction. -/
+theorem covering_update_resolves_any_order (cfg : Cfg) (hk : MergeKeepsId cfg) (l : List Event) (hU : RefFun l)
+    (s : Store) (h : addAll cfg {} l = .ok s) (top : Event) (htop : top ∈ l)
+    (hcov : ∀ e ∈ l, e.doc.id = top.doc.id → e ≠ top → before e top = true ∧ e.ref ∈ top.prevs) :
+    (s.get top.doc.id).conflicted = false ∧ conflictedOf s top.doc.id = none ∧
+    ∃ m, resolve s top.doc.id (some { allowDeactivated := true }) = .ok (top.doc, m) ∧
+      m.sourceTx = [top.ref] ∧ m.hash = top.payloadHash := by
+  obtain ⟨hinv, hmem⟩ := store_is_fold cfg l hU s h top.doc.id
+  have hin : top ∈ (s.get top.doc.id).events := (hmem top).mpr ⟨htop, rfl⟩
+  obtain ⟨m, hl, hs, hh, hc⟩ := inv_covering_last cfg (s.get top.doc.id) hinv top hin
+    (fun e he hne => hcov e ((hmem e).mp he).1 ((hmem e).mp he).2 hne)
+  have hobs := reachable_obsInv cfg hk l s h
+  refine ⟨hc, ?_, m, resolve_latest s _ _ hl, hs, hh⟩
+  unfold conflictedOf
+  rw [hobs.cache.look, hc]
+  rfl
+
+/-- **History.** After any arrival sequence `HistorySinceVersion(id, 0)` lists exactly the arrived transactions of
+    the DID, each once, in `before` order, numbered from 0, all with the first one's signing time as `Created`. -/
+theorem history_is_the_sorted_event_list (cfg : Cfg) (l : List Event) (hU : RefFun l) (s : Store)
+    (h : addAll cfg {} l = .ok s) (id : String) (hist : List HistDoc)
+    (hh : historySince (s.get id) 0 = .ok hist) :
+    Sorted (s.get id).events ∧ (∀ e, e ∈ (s.get id).events ↔ (e ∈ l ∧ e.doc.id = id)) ∧
+    hist.map (·.raw) = (s.get id).events.map (·.payloadHash) ∧
+    hist.map (·.version) = List.range' 0 (s.get id).events.length ∧
+    ∀ x ∈ hist, some x.created = (s.get id).events.head?.map (·.sigTime) := by
+  obtain ⟨hinv, hmem⟩ := store_is_fold cfg l hU s h id
+  unfold historySince at hh
+  cases hev : (s.get id).events with
+  | nil => rw [hev] at hh; cases hh
+  | cons e0 es =>
+    rw [hev] at hh
+    simp only [Nat.not_lt_zero, if_false, List.drop_zero, Res.ok.injEq] at hh
+    obtain ⟨h1, h2, h3⟩ := histFrom_raw e0.sigTime (e0 :: es) 0
+    have hsort := hinv.sorted
+    rw [hev] at hsort hmem
+    refine ⟨hsort, hmem, by rw [← hh]; exact h1, by rw [← hh]; exact h2, ?_⟩
+    intro x hx
+    rw [← hh] at hx
+    simp [h3 x hx]
+
 /-! ### non-vacuity: a concrete 2-way fork, two arrival orders, hypotheses met, conflict visible -/
 
 private def docOf (svc : String) : Doc :=
@@ -214,5 +375,39 @@ example : (match addAll cfg0 {} [evCreate, evA, evB], addAll cfg0 {} [evB, evA, 
       (s₁.get "did:nuts:x").conflicted && (s₂.get "did:nuts:x").conflicted &&
       s₁.conflictedCount == 1 && s₂.conflictedCount == 1 && s₁.documentCount == 1 && s₂.documentCount == 1
     | _, _ => false) = true := by decide
+
+/-- the hypotheses of the new theorems are met by the same concrete stores: the fork is cached and counted, survives a
+    restart, `Iterate` lists the DID once, the history is the sorted event list, a covering update clears the conflict
+    (in a late arrival order too) and a deactivation answers `deactivated` -/
+private def evR : Event := ⟨2, 30, 300, [150, 200, 100], "pR", docOf "sR"⟩
+private def evD : Event := ⟨3, 40, 400, [300], "pD", { id := "did:nuts:x", f := fun _ => [] }⟩
+
+example : MergeKeepsId cfg0 := cfgOf_keeps_id _ _
+
+example : (match addAll cfg0 {} [evB, evA, evCreate] with
+    | .ok s =>
+      s.cache.length == 1 && (reload s).cache.length == 1 && (iterate s).length == 1 &&
+      (conflictedOf s "did:nuts:x").isSome && (conflictedOf (reload s) "did:nuts:x").isSome &&
+      (match historySince (s.get "did:nuts:x") 0 with
+        | .ok h => h.map (·.raw) == ["p0", "pB", "pA"] && h.map (·.version) == [0, 1, 2] && h.map (·.created) == [10, 10, 10]
+        | _ => false)
+    | _ => false) = true := by decide
+
+example : (match addAll cfg0 {} [evR, evB, evA, evCreate] with
+    | .ok s =>
+      !(s.get "did:nuts:x").conflicted && s.cache.length == 0 && s.conflictedCount == 0 &&
+      (match resolve s "did:nuts:x" (some { allowDeactivated := true }) with
+        | .ok (_, m) => m.sourceTx == [300] && m.hash == "pR"
+        | _ => false)
+    | _ => false) = true := by decide
+
+example : (match addAll cfg0 {} [evD, evR, evB, evA, evCreate] with
+    | .ok s =>
+      (match resolve s "did:nuts:x" none with | .err e => e == "deactivated" | _ => false) &&
+      (match resolve s "did:nuts:x" (some {}) with | .err e => e == "deactivated" | _ => false) &&
+      (match resolve s "did:nuts:x" (some { time := some 35 }) with | .ok (_, m) => !m.deactivated | _ => false) &&
+      (match resolve s "did:nuts:x" (some { hash := some "pB", time := some 15, allowDeactivated := true }) with
+        | .err e => e == "not-found" | _ => false)
+    | _ => false) = true := by decide
 
 end Nuts.C10.Props
